@@ -85,6 +85,8 @@ type g2lTarget struct {
 	// can then say what the function does to the caller's map. Re-pointing is accepted only to a value created
 	// in this function (a local holding one is treated as moved: later in-place updates through it are refused).
 	sharedMaps []string
+	// mapFields: struct field names that hold maps: `x.F[k]` reads with GoLite.Map.get (what mapVars is for identifiers)
+	mapFields []string
 	// rangeCopies: the elements of every slice this function ranges over are struct VALUES (not pointers), so a
 	// `for _, x := range` value variable is the function's own copy and `x.F = v` stays local. The translator
 	// cannot see element types; the claim belongs to the trusted base of the theorem that uses the translation.
@@ -267,6 +269,13 @@ func (g *g2l) expr(e ast.Expr) string {
 	case *ast.IndexExpr:
 		if id, ok := x.X.(*ast.Ident); ok && g.isMapVar(id.Name) {
 			return "(GoLite.Map.get " + g.expr(x.X) + " " + g.expr(x.Index) + ")"
+		}
+		if se, ok := x.X.(*ast.SelectorExpr); ok {
+			for _, f := range g.t.mapFields {
+				if f == se.Sel.Name {
+					return "(GoLite.Map.get " + g.expr(x.X) + " " + g.expr(x.Index) + ")"
+				}
+			}
 		}
 		return "(GoLite.idx " + g.expr(x.X) + " " + g.expr(x.Index) + ")"
 	case *ast.CallExpr:
@@ -536,7 +545,11 @@ func (g *g2l) composite(x *ast.CompositeLit) string {
 			g.fail(x, "positional struct literal")
 		}
 		fv := g.expr(kv.Value)
-		if _, isCall := kv.Value.(*ast.CallExpr); g.optField(kv.Key.(*ast.Ident).Name) && !isNil(kv.Value) && !g.isOpt(kv.Value) && !isCall {
+		_, isCall := kv.Value.(*ast.CallExpr)
+		if c, ok := kv.Value.(*ast.CallExpr); ok && (callName(c) == "fmt.Errorf" || callName(c) == "errors.New") {
+			isCall = false // an error constructor yields a value, never nil: it is wrapped like any other value
+		}
+		if g.optField(kv.Key.(*ast.Ident).Name) && !isNil(kv.Value) && !g.isOpt(kv.Value) && !isCall {
 			fv = "(some " + fv + ")"
 		}
 		fs = append(fs, g2lIdent(kv.Key.(*ast.Ident).Name)+" := "+fv)
